@@ -139,7 +139,15 @@ type c02Certs struct {
 
 func c02CertSet(k int) []c02Certs {
 	other := 2
-	return []c02Certs{{"signer's certificate", keys.C(k)}, {"another certificate", keys.C(other)}, {"same issuer+serial, other key", samePlate(keys.C(k))}}
+	// same issuer and serial under keys of another size as well (a larger and a smaller modulus than
+	// the signer's where possible): anything keyed on issuer+serial alone, or sized by the certificate
+	// at hand, shows here
+	big, small := 4, 6
+	if k == 4 {
+		big = 3
+	}
+	return []c02Certs{{"signer's certificate", keys.C(k)}, {"another certificate", keys.C(other)}, {"same issuer+serial, other key", samePlate(keys.C(k))},
+		{"same issuer+serial, key of another size", samePlateK(keys.C(k), big)}, {"same issuer+serial, 2047-bit key", samePlateK(keys.C(k), small)}}
 }
 
 func c02Judge(c *hx.Ctx, x []byte, class string, certs []c02Certs, untouched bool) {
